@@ -477,7 +477,7 @@ macro_rules! all_for_elem {
 
 fn main() {
     let ctx = Ctx::from_args("C05");
-    let rounds = ctx.n(400, 20000);
+    let rounds = ctx.n(400, 200000);
     let acc = ctx.parallel(|shard, nshards| {
         let mut acc = Acc::new();
         for r in 0..rounds {
